@@ -15,7 +15,7 @@ func init() {
 		ID: "C13", Fn: c13,
 		Rule:        "budget: the time-budget computation (verif wrapper) swept over remaining time 1 ms..3 h (log grid) x increment {0, 1 ms, T/100, T/10, T/2, T, 2T, 10T} x movestogo {0,1,2,5,10,40,100} x side x positions of game phase 0..24: budget <= mover's remaining time and n*budget <= T + n*inc (n = movestogo, 15 when none); live clock searches: timer-start trace value equals the wrapper's; depth: SearchDepth == d and info depth 1..d all sent unless the root is terminal / single-move; nodes: NodesVisited <= limit + 256; searchmoves: best move in the list for random subsets of the legal root moves; movetime: elapsed <= movetime + allowance, exceedances re-run serially and only reproducible ones count; distinct = distinct parameter tuples",
 		Assumptions: []string{"allowance for the temporal clause 250 ms (parallel load), decided by isolate-and-reproduce", "node overshoot bound 256 = at most one node per ply (MaxDepth 128) while unwinding plus one per iteration"},
-		Required:    []string{"budget_evaluations", "budget_inc_gt_time", "budget_movestogo_1", "depth_searches", "node_searches", "searchmoves_searches", "searchmoves_excluding_best", "movetime_searches", "clock_searches_traced"},
+		Required:    []string{"budget_evaluations", "budget_inc_gt_time", "budget_movestogo_1", "budget_opponent_has_more_time", "depth_searches", "node_searches", "searchmoves_searches", "searchmoves_excluding_best", "movetime_searches", "clock_searches_traced"},
 		MinEvals:    10000,
 		TimeoutQ:    20 * 60e9,
 	})
@@ -52,12 +52,18 @@ func c13(c *Ctx) {
 					if !c.Mine(idx) {
 						continue
 					}
-					other := time.Duration(int64(T) / 3)
+					// the opponent's clock and increment must not matter: vary them
+					// (smaller, larger, much larger than the mover's)
+					other := []time.Duration{T / 3, 3 * T, T + time.Hour}[idx%3]
+					otherInc := []time.Duration{0, 10 * T, inc / 2}[(idx/3)%3]
 					sl := search.Limits{TimeControl: true, MovesToGo: mtg}
 					if white {
-						sl.WhiteTime, sl.WhiteInc, sl.BlackTime, sl.BlackInc = T, inc, other, 0
+						sl.WhiteTime, sl.WhiteInc, sl.BlackTime, sl.BlackInc = T, inc, other, otherInc
 					} else {
-						sl.BlackTime, sl.BlackInc, sl.WhiteTime, sl.WhiteInc = T, inc, other, 0
+						sl.BlackTime, sl.BlackInc, sl.WhiteTime, sl.WhiteInc = T, inc, other, otherInc
+					}
+					if other > T {
+						rep.Inc("budget_opponent_has_more_time")
 					}
 					budget := s.VerifSetupTimeControl(p, &sl)
 					rep.Eval(1)
@@ -73,7 +79,7 @@ func c13(c *Ctx) {
 					if n == 0 {
 						n = 15
 					}
-					payload := map[string]interface{}{"fen": fen, "remaining_ms": float64(T) / 1e6, "inc_ms": float64(inc) / 1e6, "movestogo": mtg, "budget_ms": float64(budget) / 1e6}
+					payload := map[string]interface{}{"fen": fen, "remaining_ms": float64(T) / 1e6, "inc_ms": float64(inc) / 1e6, "movestogo": mtg, "budget_ms": float64(budget) / 1e6, "opponent_remaining_ms": float64(other) / 1e6, "opponent_inc_ms": float64(otherInc) / 1e6}
 					if budget > T {
 						k := "budget:exceeds-remaining-time"
 						if inc > T/2 {
